@@ -496,10 +496,11 @@ def b_value_pairs_pos(tier, rnd):
 def b_value_near(tier, rnd):
     cases = []
     for b in VBASES:
-        for x in (b, b / 1.5):
+        for x in (b, b / 1.5, b * 3 / 2.0, b * 5 / 4.0, b * 7 / 4.0):
             for f in (0.99, 0.9901, 0.995, 0.999, 1.0, 1.001, 1.005, 1.0099, 1.01):
                 cases.append((x * f,))
-    return {"rule": "undotted and single-dotted values x 9 perturbation factors within +-1%", "cases": cases}
+    return {"rule": "undotted, single-dotted and tuplet (3:2, 5:4, 7:4) values of the 10 bases x 9 perturbation factors within +-1%",
+            "cases": cases}
 
 
 @battery("base_dots")
